@@ -7,6 +7,32 @@ use rand::Rng;
 use std::cmp::Reverse;
 use std::collections::{BinaryHeap, HashSet};
 
+/// Verification hook (C31): lets the harness supply the level `insert` would otherwise draw at
+/// random, and observe the level that was used. Compiled only with `--cfg nervusdb_verif`.
+#[cfg(nervusdb_verif)]
+pub mod verif_level {
+    use std::cell::RefCell;
+    use std::collections::VecDeque;
+
+    thread_local! {
+        static FORCED: RefCell<VecDeque<u8>> = const { RefCell::new(VecDeque::new()) };
+    }
+
+    /// Queue a level for the next `insert` on this thread.
+    pub fn push(level: u8) {
+        FORCED.with(|q| q.borrow_mut().push_back(level));
+    }
+
+    /// Levels queued but not consumed yet.
+    pub fn pending() -> usize {
+        FORCED.with(|q| q.borrow().len())
+    }
+
+    pub(super) fn take() -> Option<u8> {
+        FORCED.with(|q| q.borrow_mut().pop_front())
+    }
+}
+
 /// HNSW Index Implementation.
 ///
 /// Generic over storage backends to support both in-memory and persistent modes.
@@ -51,6 +77,10 @@ impl<V, G> HnswIndex<V, G> {
     }
 
     fn random_level(&self) -> u8 {
+        #[cfg(nervusdb_verif)]
+        if let Some(level) = verif_level::take() {
+            return level;
+        }
         let mut rng = rand::thread_rng();
         let ml = 1.0 / (self.params.m as f64).ln();
         let r: f64 = rng.r#gen();
